@@ -652,7 +652,7 @@ async fn run(plan: Plan, root: &std::path::Path, trace: bool) -> Value {
                 "dropped_partition": stats.dropped_partition, "refused_down": stats.refused_down,
                 "streams_opened": stats.streams_opened, "streams_broken": stats.streams_broken,
                 "stream_stalls": stats.stream_stalls, "snapshots_pushed": stats.snapshots_pushed,
-                "snapshots_push_failed": stats.snapshots_push_failed, "slow_link_msgs": stats.slow_link_msgs},
+                "snapshots_push_failed": stats.snapshots_push_failed, "slow_link_msgs": stats.slow_link_msgs, "append_delivered_after_stream_reset": stats.delivered_after_break},
         "disk": {"persist_calls": disk_tot.0, "flush_calls": disk_tot.1, "fenced_calls": disk_tot.2},
         "oracle": o.summary(),
         "liveness": liveness,
